@@ -522,10 +522,40 @@ func c02(c *fw.Ctx) {
 		}
 		c02One(r, dmOpts{text: "abcdefghijkl", shape: 2, max: &[2]int{8, 18}}, "too-long")
 	})
+	// contents that are not text at all (invalid UTF-8: isolated bytes >= 0x80, truncated
+	// sequences, surrogates) or text outside ISO-8859-1, of every length class: never a symbol
+	for i := 0; i < c.Pick(40, 400); i++ {
+		c.Run(fmt.Sprintf("refuse-bytes/%d", i), func(r *fw.Rec) {
+			rng := r.Rng
+			for rep := 0; rep < 20; rep++ {
+				b := []byte(fromAlphabet(rng, "abcXYZ019 *>.,", rng.Intn(30)))
+				for k := 1 + rng.Intn(3); k > 0; k-- {
+					pos := rng.Intn(len(b) + 1)
+					var ins []byte
+					switch rng.Intn(5) {
+					case 0:
+						ins = []byte{byte(0x80 + rng.Intn(0x80))} // isolated high byte
+					case 1:
+						ins = []byte{0xE4, 0xB8} // truncated three-byte sequence
+					case 2:
+						ins = []byte{0xED, 0xA0, 0x80} // encoded surrogate
+					case 3:
+						ins = []byte(string(rune(0x100 + rng.Intn(0x2000)))) // valid UTF-8 beyond Latin-1
+					default:
+						ins = []byte{0xC0, 0x80} // overlong NUL
+					}
+					b = append(b[:pos], append(ins, b[pos:]...)...)
+				}
+				if !c02One(r, dmOpts{text: string(b)}, "not-latin1-text") {
+					return
+				}
+			}
+		})
+	}
 	c.Floor("roundtrip_ok", 30000)
 	c.Floor("image_path_ok", 3000)
 	c.Floor("image_path_modules_of_33_pixels_or_more", 300)
-	c.Floor("refused_must_fail", 5)
+	c.Floor("refused_must_fail", 700)
 	for _, m := range "ACTXEB" {
 		c.Floor("mode_entered_"+string(m), 200)
 	}
